@@ -578,8 +578,10 @@ def threadForms (first : Bool) : Val → List Val → M Val
             let tl ← mkCons x cp
             mkCons fh tl
           else do
-            let (xs, _) := form.spine
-            mkListM (xs ++ [x])
+            -- `list!(,@form ,x)`: pushing after an improper tail fails
+            let acc ← ({} : Acc).append form
+            let acc ← acc.push x
+            acc.build
         | atom => mkListM [atom, x]
       threadForms first step more
 
